@@ -5,6 +5,7 @@ import fn_atten as fa
 PID = "C12"
 MODEL_TARGETS = ["Generated", "Attenuated"]
 PROPS_TARGETS = ["Props_C12"]
+SUPPORT_TARGETS = ["FloatExact"]
 TRUSTED_BASE = ["modelled, not verified: pandas Series.rolling('<P>s') window membership (t-P, t], min_periods counting "
                 "non-NaN observations, .std() (sample, NaN below two observations), .apply(np.ptp, raw=True) (NaN as soon as "
                 "the window holds a NaN), np.std / np.ptp on masked arrays, the median-step conversion of min_period",
